@@ -130,7 +130,13 @@ def unit_sweep(ctx, db, r):
             continue
         case0 = {"unit": u, "qt": qt}
         ctx.ev()
-        dc = db.GetDefaultCategory(u)
+        # the default category of a unit is what the table registered for it (else the category named after its quantity
+        # type) - read from the table entry, not from the lookup the unit-only forms themselves go through
+        info_ = db.unit_to_unit_info[u]
+        dc = info_.default_category or (qt if qt in db.categories_to_quantity_types else None)
+        ctx.ev()
+        if db.GetDefaultCategory(u) != dc:
+            ctx.violation("GetDefaultCategory-differs-from-the-table-entry:%s" % u, dict(case0, table=dc, lookup=db.GetDefaultCategory(u)), replay=case0)
         if dc is None or dc not in db.categories_to_quantity_types:
             ctx.violation("unit-without-existing-default-category:%s" % u, dict(case0, default_category=dc), replay=case0)
             continue
@@ -159,6 +165,23 @@ def unit_sweep(ctx, db, r):
                     compare_forms(ctx, ga, case2, "FixedArray[%s]" % kind)
                     compare_forms(ctx, fraction_forms(u, c2, v, False), case2, "FractionScalar")
                     compare_forms(ctx, fraction_forms(u, c2, v, False, True), case2, "FractionScalar(float)")
+            # an object of another category built *immediately* before a unit-only one (also across classes): the unit-only
+            # object is the default category's whatever was built last
+            from barril.units import Array as _A, FractionScalar as _F
+
+            for c2 in others[:2]:
+                for prev, nxt, tag in (
+                    (lambda: Scalar(c2, v, u), lambda: Scalar(v, u), "Scalar after Scalar"), (lambda: _A(c2, [v, 1.0], u), lambda: _F(v, u), "FractionScalar after Array"),
+                    (lambda: Scalar(v, u, c2), lambda: _A([v, 2.0], u), "Array after Scalar"),
+                ):  # fmt: skip
+                    ctx.ev()
+                    try:
+                        prev()
+                        o = nxt()
+                        if o.GetCategory() != dc:
+                            ctx.violation("unit-only-object-takes-the-category-of-the-object-built-before-it:%s" % tag, dict(case, built_before_under=c2, got=o.GetCategory(), default_category=dc), replay=case)
+                    except Exception as e:
+                        ctx.violation("unit-only-form-raised:%s" % type(e).__name__, dict(case, sequence=tag, error=str(e)[:160]), replay=case)
             # ... and captioned requests for the same unit (they are other quantities; they must not take over
             # the entry the unit-only forms resolve to)
             try:
